@@ -96,10 +96,13 @@ def program(ch, menu=None):
     feats = {}
     order = pick(["LittleEndian", "BigEndian"], "mod.byte_order")
     feats["byte_order"] = order
+    imp = pick(["no", "yes"], "mod.import")
+    feats["import"] = imp
+    PX = "im." if imp == "yes" else ""
     ptype = pick(PARAMS, "main.params")
     feats["params"] = ptype
     params = {"none": [], "uint4": [("p", ("UInt", 4))], "int4": [("p", ("Int", 4))],
-              "enum": [("p", ("enum", "Kind", None))]}[ptype]
+              "enum": [("p", ("enum", PX + "Kind", None))]}[ptype]
     need = set()
     header = A.Field(None, ("anon", [
         A.Field("tag", ("UInt", None), C(0), C(2)),
@@ -143,22 +146,22 @@ def program(ch, menu=None):
         elif st == "f32":
             typ = ("Float", None)
         elif st == "enum8":
-            typ = ("enum", "Kind", None)
+            typ = ("enum", PX + "Kind", None)
             need.add("Kind")
         elif st == "senum8":
-            typ = ("enum", "SKind", None)
+            typ = ("enum", PX + "SKind", None)
             need.add("SKind")
         elif st == "inner":
-            typ = ("struct", "Inner", ())
+            typ = ("struct", PX + "Inner", ())
             need.add("Inner")
         elif st == "dyn":
-            typ = ("struct", "Dyn", ())
+            typ = ("struct", PX + "Dyn", ())
             need.add("Dyn")
         elif st == "pars":
-            typ = ("struct", "ParS", (F("len"),))
+            typ = ("struct", PX + "ParS", (F("len"),))
             need.add("ParS")
         elif st == "bitsT":
-            typ = ("struct", "Bt", ())
+            typ = ("struct", PX + "Bt", ())
             need.add("Bt")
         elif st == "anon":
             typ = ("anon", [A.Field("a%d" % i, ("UInt", None), C(0), C(4)),
@@ -170,20 +173,20 @@ def program(ch, menu=None):
         elif st == "arr_i16x2":
             typ = ("array", ("Int", 16), C(2))
         elif st == "arr_inner":
-            typ = ("array", ("struct", "Inner", ()), C(2))
+            typ = ("array", ("struct", PX + "Inner", ()), C(2))
             need.add("Inner")
         elif st == "arr_bits":
-            typ = ("array", ("struct", "Bt", ()), C(2))
+            typ = ("array", ("struct", PX + "Bt", ()), C(2))
             need.add("Bt")
         elif st == "zero_tail":
             typ = ("array", ("UInt", 8), None)         # a zero-length end marker past every other field
         elif st == "arr_u24x2":
             typ = ("array", ("UInt", 24), C(2))
         elif st == "arr_tri":
-            typ = ("array", ("struct", "Tri", ()), C(2))
+            typ = ("array", ("struct", PX + "Tri", ()), C(2))
             need.add("Tri")
         elif st == "enumk8":
-            typ = ("enum", "KindK", None)
+            typ = ("enum", PX + "KindK", None)
             need.add("KindK")
         # ---- start
         if start_kind == "const":
@@ -231,7 +234,7 @@ def program(ch, menu=None):
             if ptype in ("uint4", "int4"):
                 cond = OP("==", F("p"), C(1))
             elif ptype == "enum":
-                cond = OP("==", F("p"), ("ev", "Kind", "KB"))
+                cond = OP("==", F("p"), ("ev", PX + "Kind", "KB"))
                 need.add("Kind")
             else:
                 cond = OP("!=", F("tag"), C(0))
@@ -353,8 +356,13 @@ def program(ch, menu=None):
     for nm, mk in (("Inner", _inner), ("Dyn", _dyn), ("ParS", _pars), ("Bt", _bits_t), ("Tri", _tri)):
         if nm in need:
             structs.append(mk())
-    structs.append(main)
-    module = A.Module(order, None, enums, structs)
+    if imp == "yes":
+        other = "BigEndian" if order == "LittleEndian" else "LittleEndian"
+        imported = A.Module(other, None, enums, structs, name="imp.emb")
+        module = A.Module(order, None, [], [main], imports=[("im", imported)])
+    else:
+        structs.append(main)
+        module = A.Module(order, None, enums, structs)
     # ---- parameter tuples
     tuples = {"none": [()], "uint4": [(0,), (1,), (2,), (15,)], "int4": [(-8,), (-1,), (0,), (1,), (7,)],
               "enum": [(0,), (1,), (3,)]}[ptype]
